@@ -19,6 +19,11 @@ EXTENDS SweepOps, TLC, Json, IOUtils
 
 Data == JsonDeserialize(IOEnv.TRACE_FILE)
 Tr == Data.traces
+(* Two levels (harness/parallel.py): Strict demands the program of Sweep.tla (every local problem in order, with its time     *)
+(* fraction, well posed; reported energies are the Ritz values; a dt / -dt pair reduces to the empty word).  The properties    *)
+(* C08 / C09 / C10 are the result clauses of TEnd; with Strict = FALSE the local events are removed by the harness and the     *)
+(* end record is marked hooks_missing.  Diagnostics of strict-only clauses start with "spec: ".                               *)
+Strict == IF "strict" \in DOMAIN Data THEN Data.strict ELSE TRUE
 VARIABLES tid, l, word, p, sign, stack, ens, pc
 tvars == <<tid, l, word, p, sign, stack, ens, pc>>
 Rec == Tr[tid][l]
@@ -50,7 +55,7 @@ TLocal == /\ HasRec /\ Rec.ev = "local" /\ pc = "run"
 EnergiesOK ==
     Rec.is_dmrg =>
         /\ Len(Rec.energies) = Rec.nsteps
-        /\ (Rec.nsteps > 0 /\ Len(word) > 0) =>
+        /\ (Strict /\ Rec.nsteps > 0 /\ Len(word) > 0 /\ ~Rec.hooks_missing) =>
               LET per == Len(word) \div Rec.nsteps
               IN \A n \in 1..Rec.nsteps : Rec.energies[n] = ens[n * per]
 
@@ -59,7 +64,7 @@ TEnd == /\ HasRec /\ Rec.ev = "end" /\ pc = "run"
         /\ EnergiesOK
         /\ Rec.ret_ok /\ Rec.h_unchanged /\ Rec.sparse_ok /\ Rec.types_ok /\ Rec.boundary_ok /\ Rec.dims_ok
         /\ Rec.norm_ok /\ Rec.energy_ok /\ Rec.extra_ok
-        /\ Rec.expect_reduced => stack = <<>>                             \* a dt / -dt pair cancels completely
+        /\ (Strict /\ Rec.expect_reduced) => stack = <<>>                             \* a dt / -dt pair cancels completely
         /\ pc' = "idle" /\ UNCHANGED <<word, p, sign, stack, ens>> /\ Advance
 
 TStep == TBegin \/ TLocal \/ TEnd
@@ -69,15 +74,16 @@ TNextTrace == /\ tid <= Len(Tr) /\ l > Len(Tr[tid]) /\ pc = "idle"
 Diagnose ==
     IF Rec.ev = "raise" THEN Rec.exc
     ELSE IF Rec.ev = "local" THEN
-        (IF pc # "run" \/ p > Len(word) THEN "more local problems than the program has"
-         ELSE IF Rec.kind # word[p].op \/ Rec.i # word[p].i THEN "sweep order: unexpected local problem (kind / site)"
-         ELSE IF Rec.f # sign * word[p].f THEN "wrong time fraction or sign of a local step"
-         ELSE IF ~(Rec.fresh_l /\ Rec.fresh_r) THEN "stale environment block handed to a local problem"
-         ELSE IF ~(Rec.canon_l /\ Rec.canon_r) THEN "local problem not in mixed canonical form"
-         ELSE "local Ritz value above the Rayleigh quotient of the start tensor")
+        (IF pc # "run" \/ p > Len(word) THEN "spec: more local problems than the program has"
+         ELSE IF Rec.kind # word[p].op \/ Rec.i # word[p].i THEN "spec: sweep order: unexpected local problem (kind / site)"
+         ELSE IF Rec.f # sign * word[p].f THEN "spec: wrong time fraction or sign of a local step"
+         ELSE IF ~(Rec.fresh_l /\ Rec.fresh_r) THEN "spec: stale environment block handed to a local problem"
+         ELSE IF ~(Rec.canon_l /\ Rec.canon_r) THEN "spec: local problem not in mixed canonical form"
+         ELSE "spec: local Ritz value above the Rayleigh quotient of the start tensor")
     ELSE IF Rec.ev = "end" THEN
-        (IF ~((p = Len(word) + 1) \/ (Rec.hooks_missing /\ p = 1)) THEN "fewer local problems than the program has"
-         ELSE IF ~EnergiesOK THEN "reported energy is not the Ritz value of the last local problem of its sweep"
+        (IF ~((p = Len(word) + 1) \/ (Rec.hooks_missing /\ p = 1)) THEN "spec: fewer local problems than the program has"
+         ELSE IF Rec.is_dmrg /\ Len(Rec.energies) # Rec.nsteps THEN "number of reported energies differs from the number of sweeps"
+         ELSE IF ~EnergiesOK THEN "spec: reported energy is not the Ritz value of the last local problem of its sweep"
          ELSE IF ~Rec.ret_ok THEN "returned value is not the norm of the input state"
          ELSE IF ~Rec.h_unchanged THEN "Hamiltonian modified"
          ELSE IF ~Rec.norm_ok THEN "norm of the state not conserved / not one"
@@ -86,7 +92,7 @@ Diagnose ==
          ELSE IF ~Rec.boundary_ok THEN "total quantum numbers changed"
          ELSE IF ~(Rec.sparse_ok /\ Rec.types_ok) THEN "block sparsity / charge list clause violated"
          ELSE IF ~Rec.extra_ok THEN Rec.extra_what
-         ELSE "dt / -dt pair does not reduce to the empty word")
+         ELSE "spec: dt / -dt pair does not reduce to the empty word")
     ELSE "unexpected event"
 TReject == /\ tid <= Len(Tr)
            /\ \/ (HasRec /\ ~ENABLED TStep)
